@@ -91,7 +91,7 @@ func init() {
 		ID: "C29", Title: "Block hashes commit to block contents", World: "crypto",
 		Gen: genC29, Exec: execC29,
 		Quick:    sim.Budget{Runs: 640, WallS: 60},
-		Thorough: sim.Budget{Runs: 15000, WallS: 840},
+		Thorough: sim.Budget{Runs: 12000, WallS: 840},
 		LevelText: "seeded search: sim-owned generators (real node identities, both signature schemes) assemble real block.Block values from really signed transactions with outputs, " +
 			"optionally carrying a magic block built from real DKG material, hash and sign them with the shipped code; a simulated byzantine link applies one tamper per delivery " +
 			"(every JSON-visible field of Block and of its MagicBlock found by reflection, every field of a contained transaction, add/drop/reorder/duplicate/replace of transactions, attach/detach of the magic block); " +
